@@ -46,6 +46,9 @@ fn snapshot(root: &Path) -> BTreeMap<String, String> {
             } else if md.is_dir() {
                 m.insert(rel.clone(), "dir".into());
                 walk(root, &p, m);
+            } else if !md.is_file() {
+                // a FIFO / socket / device: never read (a FIFO would block)
+                m.insert(rel, "special".into());
             } else {
                 let bytes = std::fs::read(&p).unwrap_or_default();
                 m.insert(rel, format!("file:{}:{:016x}", bytes.len(), fnv64(&bytes)));
@@ -71,6 +74,22 @@ fn write_zip(path: &Path, entries: &[Entry]) {
         .map(|e| rawzipw::RawEnt { name: e.name.as_bytes().to_vec(), data: e.bytes.clone(), mode: e.mode })
         .collect();
     std::fs::write(path, rawzipw::write_raw_zip(&ents)).unwrap();
+}
+
+pub fn plant_fifo(p: &Path) {
+    let c = std::ffi::CString::new(p.to_str().unwrap()).unwrap();
+    unsafe {
+        libc::mkfifo(c.as_ptr(), 0o644);
+    }
+}
+
+/// files whose names derive from the output name, as editors and careless "write to a temporary
+/// name, then rename" schemes use them: they belong to the user and must survive the run
+pub fn plant_beside_output(dir: &Path, name: &str) {
+    let stem = name.rsplit_once('.').map(|x| x.0).filter(|s| !s.is_empty()).unwrap_or(name);
+    for n in [format!("{}.tmp", stem), format!("{}.tmp", name), format!("{}~", name), format!(".{}.swp", name), format!("{}.bak", name), format!("{}.part", name)] {
+        let _ = std::fs::write(dir.join(n), format!("the user's own file beside {}", name));
+    }
 }
 
 /// the normal components of a path, hex, comma separated (the driver's `<segs>`)
@@ -252,6 +271,11 @@ pub fn run(rep: &mut Report) {
         std::fs::create_dir_all(case_dir.join("in/dirinput/0")).unwrap();
         std::fs::write(case_dir.join("in/dirinput/0/w0.gcda"), &gcda).unwrap();
         std::fs::write(case_dir.join("in/dirinput/0/keep.profraw"), b"profile below a directory called 0").unwrap();
+        // not files, named like artifacts, beside live ones: a FIFO and dangling links (mutant R15)
+        plant_fifo(&case_dir.join("in/dirinput/zz_pipe.info"));
+        plant_fifo(&case_dir.join("in/dirinput/shared/zz_pipe.profraw"));
+        let _ = std::os::unix::fs::symlink("nowhere.profraw", case_dir.join("in/dirinput/zz_dangling.profraw"));
+        let _ = std::os::unix::fs::symlink("nowhere.gcno", case_dir.join("in/dirinput/shared/x.gcno"));
         let _ = std::os::unix::fs::symlink(".", case_dir.join("in/dirinput/loop"));
         let _ = std::os::unix::fs::symlink("l2.info", case_dir.join("in/dirinput/l1.info"));
         let _ = std::os::unix::fs::symlink("l1.info", case_dir.join("in/dirinput/l2.info"));
@@ -275,6 +299,11 @@ pub fn run(rep: &mut Report) {
             _ => ("lcov", "", false), // stdout
         };
         let _ = is_dir;
+        // the user's own files beside the output, named after it (seeded change C19-5: staging the report
+        // in `<output stem>.tmp` and renaming destroys such a file)
+        if !out_arg.is_empty() {
+            plant_beside_output(&case_dir.join("out"), out_arg.rsplit('/').next().unwrap());
+        }
         let mut extra: Vec<String> = vec!["-t".into(), ty.into()];
         if !out_arg.is_empty() {
             extra.extend(["-o".to_string(), out_arg.to_string()]);
